@@ -212,12 +212,39 @@ fn cases(level: u8) -> Vec<CaseZ> {
     }
     // chains of two constraints sharing a variable (w = V3)
     let (x, y, z, w) = (T::V(0), T::V(1), T::V(2), T::V(3));
-    let chains: Vec<(Con, Con)> = vec![
+    let mut chains: Vec<(Con, Con)> = vec![
         (Con { times: false, ops: [x.clone(), y.clone(), z.clone()] }, Con { times: true, ops: [z.clone(), T::I(3), w.clone()] }),
         (Con { times: true, ops: [x.clone(), y.clone(), z.clone()] }, Con { times: false, ops: [z.clone(), w.clone(), T::I(1)] }),
         (Con { times: false, ops: [x.clone(), T::I(1), y.clone()] }, Con { times: false, ops: [y.clone(), T::I(1), z.clone()] }),
         (Con { times: true, ops: [x.clone(), T::I(-2), y.clone()] }, Con { times: true, ops: [w.clone(), y.clone(), z.clone()] }),
     ];
+    // every way two constraints can share one variable: the shared variable in position i of
+    // the first (over x, y, z) and position j of the second (with w and a constant in the other
+    // two positions, both orders); whichever constraint determines the shared variable, the
+    // other must be woken
+    for t1 in [false, true] {
+        for t2 in [false, true] {
+            for i in 0..3usize {
+                for j in 0..3usize {
+                    for flip in [false, true] {
+                        let first = [x.clone(), y.clone(), z.clone()];
+                        let shared = first[i].clone();
+                        let (o1, o2) = if flip { (T::I(2), w.clone()) } else { (w.clone(), T::I(2)) };
+                        let mut second: Vec<T> = vec![];
+                        let mut others = vec![o1, o2].into_iter();
+                        for p in 0..3 {
+                            if p == j {
+                                second.push(shared.clone());
+                            } else {
+                                second.push(others.next().unwrap());
+                            }
+                        }
+                        chains.push((Con { times: t1, ops: first }, Con { times: t2, ops: [second[0].clone(), second[1].clone(), second[2].clone()] }));
+                    }
+                }
+            }
+        }
+    }
     for (c1, c2) in chains {
         let vals: Vec<Option<i64>> = vec![None, Some(-2), Some(0), Some(3)];
         for asg in crate::e4::product(&vals, 4) {
@@ -316,7 +343,7 @@ fn check(c: &CaseZ, index: usize) -> (Vec<Violation>, &'static str) {
 
 pub fn run(ctx: &mut Ctx) {
     let quick = ctx.quick();
-    ctx.set("rule", json!("E3: plusz / timesz x every operand pattern over {x, y, z} and {-3, -2, 0, 1, 2, 6} (thorough: 8 values) (all aliasings) x every groundness pattern (each variable never bound or bound to one of the values by a separate `==`) x EVERY order of the statements, plus chains of two constraints sharing a variable, plus single constraints one of whose operands is unified with a partner variable by a separate `==` (both orientations, the value bound directly or through the partner, every statement order; the partner is observed too); oracle: integer arithmetic closure (all ground -> equation must hold; two ground -> third bound to the unique solution, failure if none, still constrained if every integer works; fewer -> still constrained); never a panic. distinct_nontrivial = cases where a third operand is derived."));
+    ctx.set("rule", json!("E3: plusz / timesz x every operand pattern over {x, y, z} and {-3, -2, 0, 1, 2, 6} (thorough: 8 values) (all aliasings) x every groundness pattern (each variable never bound or bound to one of the values by a separate `==`) x EVERY order of the statements, plus chains of two constraints sharing one variable in every pair of operand positions (72 shapes + 4 hand-picked), plus single constraints one of whose operands is unified with a partner variable by a separate `==` (both orientations, the value bound directly or through the partner, every statement order; the partner is observed too); oracle: integer arithmetic closure (all ground -> equation must hold; two ground -> third bound to the unique solution, failure if none, still constrained if every integer works; fewer -> still constrained); never a panic. distinct_nontrivial = cases where a third operand is derived."));
     let cs = cases(if quick { 1 } else { 2 });
     let sel: Vec<usize> = match &ctx.replay {
         Some(r) if r.family == "c19" => vec![r.index],
